@@ -4,6 +4,7 @@ import SlotVerif.Driver.ShapeDrv
 import SlotVerif.Driver.ParseDrv
 import SlotVerif.Driver.GroupDrv
 import SlotVerif.Driver.EgDrv
+import SlotVerif.Driver.ProgDrv
 /-! `svdriver`: reads one case per line `<suite> <body>`, prints one answer line per case. -/
 open SV.Drv
 
@@ -19,6 +20,7 @@ def dispatch (line : String) : String :=
     | "parse" => parseRun body
     | "grp" => grpRun body
     | "eg" => egRun body
+    | "prog" => progRun body
     | _ => "bad-suite"
   | [] => "bad-line"
 
